@@ -11,7 +11,7 @@
 #include <sys/syscall.h>
 #include <unistd.h>
 
-static uint64_t last_seed = 0, counter = 0;
+static uint64_t last_seed = 0, last_epoch = 0, counter = 0;
 static int have_last = 0;
 
 static uint64_t mix(uint64_t z) {
@@ -24,7 +24,12 @@ ssize_t getrandom(void *buf, size_t buflen, unsigned int flags) {
     const char *s = getenv("VERIF_HASH_SEED");
     if (!s) return syscall(SYS_getrandom, buf, buflen, flags);
     uint64_t seed = strtoull(s, 0, 10);
-    if (!have_last || seed != last_seed) { last_seed = seed; counter = 0; have_last = 1; }
+    /* VERIF_HASH_EPOCH only says "a new run starts": the key stream restarts, so that the keys of a
+     * run depend on its seed alone and not on how many runs the process executed before
+     * (a minimiser process replays one seed many times). Its value never enters the keys. */
+    const char *e = getenv("VERIF_HASH_EPOCH");
+    uint64_t epoch = e ? strtoull(e, 0, 10) : 0;
+    if (!have_last || seed != last_seed || epoch != last_epoch) { last_seed = seed; last_epoch = epoch; counter = 0; have_last = 1; }
     unsigned char *p = buf;
     size_t i = 0;
     while (i < buflen) {
